@@ -193,4 +193,165 @@ theorem put_typed {cfg : Cfg} {st : Bool} {s : Ledger} {m : Mem} {id : Nat} {b1 
   · exact hb
   · exact (ht.bufs p hp).ext e
 
+theorem markSplit_spec {cfg : Cfg} {st : Bool} : ∀ (l : List Nat) {s : Mem}, Core cfg st s →
+    Ext s (markSplit s l) ∧ Core cfg st (markSplit s l)
+  | [], s, hc => ⟨Ext.refl s, hc⟩
+  | i :: rest, s, hc => by
+    unfold markSplit
+    have key : ∀ (blk : Nat) (bl : Block), s.blocks[blk]? = some bl →
+        Ext s { s with blocks := s.blocks.set blk { bl with split := true } } ∧
+        Core cfg st { s with blocks := s.blocks.set blk { bl with split := true } } := by
+      intro blk bl hbl
+      have e : Ext s { s with blocks := s.blocks.set blk { bl with split := true } } := by
+        intro b' bl' hb'
+        by_cases hbb : blk = b'
+        · subst hbb
+          rw [hbl] at hb'; cases hb'
+          exact ⟨_, List.getElem?_set_self (lt_of_getElem? hbl), rfl, rfl⟩
+        · exact ⟨bl', by simp [List.getElem?_set_ne hbb, hb'], rfl, rfl⟩
+      exact ⟨e, hc.step e (fun _ _ h => Or.inl h) (fun _ h => Or.inl h)⟩
+    have h1 : Ext s (match s.nodes[i]? with
+        | some nd =>
+          if nd.unmanaged ∧ nd.origin = none ∧ nd.cap > 0 then
+            match nd.block with
+            | some blk =>
+              match s.blocks[blk]? with
+              | some bl => if bl.kind = .pool then { s with blocks := s.blocks.set blk { bl with split := true } } else s
+              | none => s
+            | none => s
+          else s
+        | none => s) ∧ Core cfg st (match s.nodes[i]? with
+        | some nd =>
+          if nd.unmanaged ∧ nd.origin = none ∧ nd.cap > 0 then
+            match nd.block with
+            | some blk =>
+              match s.blocks[blk]? with
+              | some bl => if bl.kind = .pool then { s with blocks := s.blocks.set blk { bl with split := true } } else s
+              | none => s
+            | none => s
+          else s
+        | none => s) := by
+      split
+      · split
+        · split
+          · split
+            · split
+              · rename_i _ blk _ _ bl hbl _
+                exact key blk bl hbl
+              · exact ⟨Ext.refl s, hc⟩
+            · exact ⟨Ext.refl s, hc⟩
+          · exact ⟨Ext.refl s, hc⟩
+        · exact ⟨Ext.refl s, hc⟩
+      · exact ⟨Ext.refl s, hc⟩
+    obtain ⟨e1, c1⟩ := h1
+    obtain ⟨e2, c2⟩ := markSplit_spec rest c1
+    exact ⟨e1.trans e2, c2⟩
+
+/-- contract clause 9 as a condition on a single call: `book` must not be about to write caller memory -/
+def BookOK (s : Ledger) : Op → Prop
+  | .book id _ _ _ => ∀ b, s.getBuf id = some b → BookSafe s.mem b
+  | _ => True
+
+theorem on1_typed {cfg : Cfg} {st : Bool} {s s' : Ledger} {id : Nat} {f : Buf → Option (Mem × Buf)} (ht : Typed cfg st s)
+    (hf : ∀ b m b1, s.getBuf id = some b → BufOK cfg s.mem b → f b = some (m, b1) → Tri cfg st s.mem m b1)
+    (h : on1 s id f = some s') : Typed cfg st s' := by
+  unfold on1 at h
+  split at h
+  · cases h; exact ht
+  · rename_i b hg
+    split at h
+    · cases h
+    · rename_i m b1 hfb
+      cases h
+      exact put_typed ht (hf b m b1 hg (ht.bufs _ (getBuf_mem hg)) hfb)
+
+theorem step_typed {cfg : Cfg} {st : Bool} {s s' : Ledger} {op : Op} (ht : Typed cfg st s) (hbk : st = true → BookOK s op)
+    (h : step cfg s op = some s') : Typed cfg st s' := by
+  cases op with
+  | new id size => simp only [step, Option.some.injEq] at h; subst h; exact put_typed ht (newBuf_typed size ht.core)
+  | mal id n => exact on1_typed ht (fun b m b1 _ hb hf => malloc_typed ht.core hb hf) h
+  | wbin id n pcap => exact on1_typed ht (fun b m b1 _ hb hf => writeBinary_typed ht.core hb hf) h
+  | wdir id n ecap remain =>
+    refine on1_typed ht (fun b m b1 _ hb hf => ?_) h
+    split at hf
+    · cases hf
+    · rename_i m0 b0 hw
+      cases hf
+      obtain ⟨e1, c1, hb1⟩ := writeDirect_typed ht.core hb hw
+      split
+      · obtain ⟨e2, c2⟩ := markSplit_spec (cfg := cfg) (st := st) b1.chain c1
+        exact ⟨e1.trans e2, c2, hb1.ext e2⟩
+      · exact ⟨e1, c1, hb1⟩
+  | ack id n => exact on1_typed ht (fun b m b1 _ hb hf => mallocAck_typed ht.core hb hf) h
+  | flush id => exact on1_typed ht (fun b m b1 _ hb hf => flush_typed ht.core hb hf) h
+  | next id n => exact on1_typed ht (fun b m b1 _ hb hf => next_typed ht.core hb hf) h
+  | peek id n => exact on1_typed ht (fun b m b1 _ hb hf => peek_typed ht.core hb hf) h
+  | skip id n => exact on1_typed ht (fun b m b1 _ hb hf => skip_typed ht.core hb hf) h
+  | rbin id n => exact on1_typed ht (fun b m b1 _ hb hf => readBinary_typed ht.core hb hf) h
+  | rbyte id => exact on1_typed ht (fun b m b1 _ hb hf => readByte_typed ht.core hb hf) h
+  | untl id idx => exact on1_typed ht (fun b m b1 _ hb hf => untilIdx_typed ht.core hb hf) h
+  | read id n => exact on1_typed ht (fun b m b1 _ hb hf => readCopy_typed ht.core hb hf) h
+  | rel id => exact on1_typed ht (fun b m b1 _ hb hf => release_typed ht.core hb hf) h
+  | close id => exact on1_typed ht (fun b m b1 _ hb hf => close_typed ht.core hb hf) h
+  | getbytes id k => exact on1_typed ht (fun b m b1 _ hb hf => getBytes_typed ht.core hb hf) h
+  | rtail id ms => exact on1_typed ht (fun b m b1 _ hb hf => resetTail_typed ht.core hb hf) h
+  | book id bs ms n =>
+    exact on1_typed ht (fun b m b1 hg hb hf => bookAck_typed ht.core hb (fun hst => hbk hst b hg) hf) h
+  | slice id n nid =>
+    simp only [step] at h
+    split at h
+    · cases h; exact ht
+    · rename_i b hg
+      have hb := ht.bufs _ (getBuf_mem hg)
+      split at h
+      · cases h
+      · rename_i m b1 hs
+        cases h
+        exact put_typed ht (slice_typed ht.core hb hs).1
+      · rename_i m b1 c hs
+        cases h
+        obtain ⟨⟨e1, c1, hb1⟩, hc⟩ := slice_typed ht.core hb hs
+        have e2 := e1.trans (endViews_ext m id)
+        have t1 : Typed cfg st (s.put (m.endViews id) id b1) :=
+          put_typed ht ⟨e2, endViews_core c1, hb1.ext (endViews_ext m id)⟩
+        exact put_typed t1 ⟨Ext.refl _, endViews_core c1, (hc c rfl).ext (endViews_ext m id)⟩
+  | app id did =>
+    simp only [step] at h
+    split at h
+    · rename_i b d hg hgd
+      split at h
+      · cases h
+      · rename_i m b1 d1 hw
+        cases h
+        obtain ⟨⟨e1, c1, hb1⟩, hd1⟩ := writeBuffer_typed ht.core (ht.bufs _ (getBuf_mem hg)) (ht.bufs _ (getBuf_mem hgd)) hw
+        have e2 := e1.trans (endViews_ext m did)
+        have t1 : Typed cfg st (s.put (m.endViews did) id b1) :=
+          put_typed ht ⟨e2, endViews_core c1, hb1.ext (endViews_ext m did)⟩
+        exact put_typed t1 ⟨Ext.refl _, endViews_core c1, hd1.ext (endViews_ext m did)⟩
+    · cases h; exact ht
+  | nop id => simp only [step, Option.some.injEq] at h; subst h; exact ht
+
+/-- every call of the history satisfies `P` in the state it is made in -/
+def AllSteps (cfg : Cfg) (P : Ledger → Op → Prop) : Ledger → List Op → Prop
+  | _, [] => True
+  | s, op :: ops => P s op ∧ match step cfg s op with
+    | none => True
+    | some s' => AllSteps cfg P s' ops
+
+theorem typed_init (cfg : Cfg) (st : Bool) : Typed cfg st {} :=
+  ⟨⟨fun i nd h => by simp at h, fun e h => by cases h⟩, fun p h => by cases h⟩
+
+theorem run_typed {cfg : Cfg} {st : Bool} : ∀ (ops : List Op) {s : Ledger}, Typed cfg st s →
+    (st = true → AllSteps cfg BookOK s ops) → Typed cfg st (run cfg s ops)
+  | [], s, ht, _ => ht
+  | op :: ops, s, ht, hb => by
+    unfold run
+    cases hs : step cfg s op with
+    | none => exact ht
+    | some s' =>
+      refine run_typed ops (step_typed ht (fun hst => (hb hst).1) hs) (fun hst => ?_)
+      have := (hb hst).2
+      rw [hs] at this
+      exact this
+
 end Netpoll.Buf.Own
